@@ -67,13 +67,61 @@ class ConnectedEventAbs:
         return self.g_fired == old.self.g_fired + 1
 
 
-@contract("secsgem.common.tcp_connection:TcpConnection._TcpConnection__receiver_thread_read_data", "C09", name="ReadLoopAbs")
-class ReadLoopAbs:
-    """ASSUMED (frame): the read loop ends when the peer closed, the link failed (it may raise) or a stop was requested; it
-    does not touch the gate."""
+@contract("spec.ext:AbsSocket.recv", "C09", name="RecvAbs")
+class RecvAbs:
+    """ASSUMED (POSIX): up to `size` bytes (none: the peer closed), or OSError with some errno (EWOULDBLOCK: nothing there)."""
 
     abstract = True
-    modifies = {"self._connected": Bool, "self._stop_thread": Bool}
+    returns = Bytes(max_len=1024)
+
+    def raises(self, size):
+        return {OSError: (fresh_bool("recv_fails"), {"errno": fresh_int("errno")})}
+
+
+@contract("spec.ext:AbsLinkEvent.__call__", "C09", name="DataEventAbs")
+class DataEventAbs:
+    """ASSUMED effect of the handlers of `data` (the protocol's framing loop, C04): anything of their own, may raise."""
+
+    abstract = True
+    modifies = {"self.g_fired": Int}
+    may_raise = [Exception]
+
+
+@contract("secsgem.common.tcp_connection:TcpConnection._TcpConnection__receiver_thread_read_data", "C09")
+class ReadLoop:
+    """The frame the close sequence relies on: the read loop writes `_connected` and `_stop_thread` only (the gate of the
+    `connected` handlers and the socket stay as they are), and when it returns normally a stop was requested or the peer
+    has closed (`_stop_thread`).  Flags written by other threads (`_disconnecting`, `_stop_thread`): any value at every turn."""
+
+    uses = [RecvAbs, DataEventAbs]
+    canary = "every-path"
+    may_raise = [Exception]
+
+    def inputs():
+        return {"self": _connection()}
+
+    def ensures(self, old):
+        return (self._stop_thread and self._connected_handled.g_set == old.self._connected_handled.g_set
+                and self._sock.g_closed == old.self._sock.g_closed)
+
+    def when_raised(self, old):
+        return (self._connected_handled.g_set == old.self._connected_handled.g_set
+                and self._sock.g_closed == old.self._sock.g_closed)
+
+    def inv(self, old):
+        return (self._connected_handled.g_set == old.self._connected_handled.g_set
+                and self._sock.g_closed == old.self._sock.g_closed)
+
+    loops = {1: Loop(a=inv, modifies=["self._connected", "self._stop_thread", "self._disconnecting", "self.on_data.g_fired"])}
+
+
+@contract("secsgem.common.tcp_connection:TcpConnection._TcpConnection__receiver_thread_read_data", "C09", name="ReadLoopAbs")
+class ReadLoopAbs:
+    """The frame proved as ReadLoop, used by the close sequence: the read loop ends when the peer closed, the link failed
+    (it may raise) or a stop was requested; it does not touch the gate or the socket object."""
+
+    abstract = True
+    modifies = {"self._connected": Bool, "self._stop_thread": Bool, "self._disconnecting": Bool, "self.on_data.g_fired": Int}
     may_raise = [Exception]
 
 
@@ -101,8 +149,9 @@ def _connection():
                on_connected=Obj(AbsLinkEvent, g_fired=Int(0, None), g_owner=Root()),
                on_disconnecting=Obj(AbsLinkEvent, g_fired=Int(0, None), g_owner=Root()),
                on_disconnected=Obj(AbsLinkEvent, g_fired=Int(0, None), g_owner=Root()),
+               on_data=Obj(AbsLinkEvent, g_fired=Int(0, None), g_owner=Root()),
                _sock=Obj(AbsSocket, g_closed=Bool),
-               _connected=Bool, _stop_thread=Bool, _thread_running=Bool, _receiver=Const(None))
+               _connected=Bool, _stop_thread=Bool, _disconnecting=Bool, _thread_running=Bool, _receiver=Const(None))
 
 
 @contract("secsgem.common.tcp_connection:TcpConnection._TcpConnection__receiver_thread", "C09")
